@@ -582,7 +582,9 @@ func c17EvGen(k int, r *vg.Rand) c17Input {
 		in.kind, in.kindName, in.data = 2, "hostile:"+name, c17EvEncode(l)
 		in.msg = "&EvidenceList{" + c17Trunc(proto.CompactTextString(l), 1200) + "}"
 	}
-	one := func(e tmproto.Evidence) *tmproto.EvidenceList { return &tmproto.EvidenceList{Evidence: []tmproto.Evidence{e}} }
+	one := func(e tmproto.Evidence) *tmproto.EvidenceList {
+		return &tmproto.EvidenceList{Evidence: []tmproto.Evidence{e}}
+	}
 	dvePB := func(mod func(d *tmproto.DuplicateVoteEvidence)) *tmproto.EvidenceList {
 		e := c17EvPB(f.dve(f.pv, hgt, tm(hgt), "A"+tag, "B"+tag))
 		mod(e.Sum.(*tmproto.Evidence_DuplicateVoteEvidence).DuplicateVoteEvidence)
